@@ -173,7 +173,7 @@ def coq_sources():
 def gate():
     """refuse developments that declare axioms or switch checks off"""
     bad = []
-    for f in coq_sources():
+    for f in coq_sources() + sorted(glob.glob(os.path.join(VERIF, 'harness', 'ties', '*.v'))):
         txt = open(f).read()
         txt = re.sub(r'\(\*.*?\*\)', '', txt, flags=re.S)
         for m in FORBIDDEN.finditer(txt):
@@ -228,6 +228,34 @@ def props_check(prop):
         ok = False
         out += '\nno Print Assumptions for: %s' % missing
     return ok, thms, assum, out
+
+
+def source_tie(ctx, prop, specs):
+    """second tie: regenerate the named Python functions of /repo as Coq definitions (harness/pytranslate.py) and
+    re-check the fixed lemmas of harness/ties/Tie_<prop>.v against them. specs: [(file under REPO, function, coq name)]"""
+    import pytranslate
+    tmpl = open(os.path.join(VERIF, 'harness', 'ties', 'Tie_%s.v' % prop)).read()
+    lemmas = re.findall(r'^Lemma\s+(\w+)', tmpl, flags=re.M)
+    ctx.obligations.extend(lemmas)
+    try:
+        gen = ''.join(pytranslate.translate(os.path.join(REPO, f), fn, name)[1] for f, fn, name in specs)
+    except pytranslate.TranslateError as e:
+        ctx.violation('tie:' + prop, 'source tie broken: harness/pytranslate.py cannot translate the current source of %s: %s'
+                      % ([s[1] for s in specs], e), no_input=True)
+        return False
+    os.makedirs(CASES, exist_ok=True)
+    path = os.path.join(CASES, 'Tie_%s.v' % prop)
+    with open(path, 'w') as fh:
+        fh.write(tmpl.replace('(* GENERATED *)', '(* GENERATED from %s *)\n%s' % (', '.join(s[0] + ':' + s[1] for s in specs), gen)))
+    rc, out = sh('timeout 300 coqc -Q %s TV -w -all Tie_%s.v' % (COQ, prop), cwd=CASES, timeout=330)
+    if rc != 0:
+        ctx.violation('tie:' + prop, 'source tie broken: the kernel regenerated from the current source no longer equals the '
+                      'model kernel (Tie_%s.v):\n%s\n--- regenerated ---\n%s' % (prop, out[-1500:], gen), no_input=True)
+        return False
+    ctx.discharged.extend(lemmas)
+    ctx.notes.append('source tie: %s regenerated from source and proved equal to the model kernels (%s)'
+                     % (', '.join(s[1] for s in specs), ', '.join(lemmas)))
+    return True
 
 
 def parse_coq_value(out):
